@@ -5,6 +5,7 @@ import (
 	//"encoding/hex"
 	"io"
 	"log"
+	"net"
 	"net/http"
 	"os"
 	"regexp"
@@ -102,7 +103,12 @@ func (h *HTTP) request(ctx *gin.Context) {
 	if h.Config.BehindRedir {
 		ExternalIP = ctx.Request.Header.Get("X-Forwarded-For")
 	} else {
-		ExternalIP = strings.Split(ctx.Request.RemoteAddr, ":")[0]
+		// RemoteAddr is host:port, with the host in brackets for IPv6
+		if Host, _, err := net.SplitHostPort(ctx.Request.RemoteAddr); err == nil {
+			ExternalIP = Host
+		} else {
+			ExternalIP = strings.Split(ctx.Request.RemoteAddr, ":")[0]
+		}
 	}
 
 	/*
